@@ -195,8 +195,18 @@ def run(ctx) -> None:
                     return
         rep.ok("C13.R4", f"{f.qname}:{where}", f"{f.module.rel}:{stmts[0].lineno if stmts else 0}", "only event construction/emission under the flag")
 
+    from .common import flag_locals
+
+    _flags_cache: dict[str, set[str]] = {}
+
     def _is_active_test(t: ast.AST) -> bool:
-        return any(isinstance(x, ast.Name) and x.id == "active" for x in ast.walk(t)) or any(isinstance(x, ast.Attribute) and x.attr == "active" for x in ast.walk(t))
+        f_ = db.enclosing_func(t)
+        flags = set()
+        if f_ is not None:
+            if f_.qname not in _flags_cache:
+                _flags_cache[f_.qname] = flag_locals(f_, "active")
+            flags = _flags_cache[f_.qname]
+        return any(isinstance(x, ast.Name) and x.id in flags for x in ast.walk(t)) or any(isinstance(x, ast.Attribute) and x.attr == "active" for x in ast.walk(t))
 
     def _under_active(u: ast.AST) -> bool:
         from sa.db import ancestors, parent
